@@ -1,6 +1,7 @@
 import M3d.Model.Conc
 import Mathlib.Data.List.Perm.Basic
 import Mathlib.Data.List.Range
+import Mathlib.Data.List.Nodup
 /-!
 # C13 helper lemmas: index partition, mutex reduction, channel hand-out, locked max-update
 
@@ -233,6 +234,9 @@ theorem chanInv_run (n : Nat) (g : Val → Val) (c : Config) (sched : Schedule) 
   induction sched generalizing c with
   | nil => exact I
   | cons t s ih => exact ih _ (chanInv_step n g c t I)
+
+theorem count_range_eq_one {n i : Nat} (h : i < n) : (List.range n).count i = 1 :=
+  List.count_eq_one_of_mem List.nodup_range (List.mem_range.2 h)
 
 /-! ## `HeightMap.updateAt` under a mutex -/
 
